@@ -1,1 +1,144 @@
-(* stub *)
+(* C04 -- property theorems only; each closed by `exact`, with Print Assumptions.
+   D-layer, over Model/Refine.v, which composes the lines of refine_droplet GENERATED from the current source
+   (Gen_refine: start vector, bounds, write-back, intensity levels, dilation count, final position).
+   lsq : the optimiser (scipy.optimize.least_squares) -- every statement that needs it carries the visible
+         premise `lsq_spec lsq` (answer within the bounds, cost not larger than at the start);
+   hyp : Euclidean norm used by grid.transform;  dev : image deviation over the fit region (abstract);
+   st  : min / max of the image over the fit region (None = empty region). *)
+From Coq Require Import QArith ZArith List Bool.
+Import ListNotations.
+From PD Require Import Model.Grid Gen.Gen_refine Model.Refine Proofs.RefineVec Proofs.Render Proofs.Refine Proofs.C04.
+Local Open Scope Q_scope.
+
+(* the result has the candidate's class, promoted to DiffuseDroplet when it has no interface, and carries a width *)
+Theorem C04_refine_class : forall lsq hyp dev g st vmin_o vmax_o adjust c r,
+  refine lsq hyp dev g st vmin_o vmax_o adjust c = ROk r ->
+  d_cls r = promote (d_cls c) /\ is_diffuse (d_cls r) = true /\ exists w, d_width r = Some w.
+Proof. exact refine_class. Qed.
+Print Assumptions C04_refine_class.
+
+(* radius and width non-negative, amplitudes in [-1, 1], same number of modes *)
+Theorem C04_refine_bounds : forall lsq hyp dev g st vmin_o vmax_o adjust c r,
+  lsq_spec lsq -> wf c ->
+  refine lsq hyp dev g st vmin_o vmax_o adjust c = ROk r ->
+  0 <= d_rad r /\ (exists w, d_width r = Some w /\ 0 <= w) /\
+  Forall (fun a => -1 <= a /\ a <= 1) (d_amp r) /\ length (d_amp r) = length (d_amp (promoted c)).
+Proof. exact refine_bounds. Qed.
+Print Assumptions C04_refine_bounds.
+
+(* coordinates listed in grid.coordinate_constraints are the candidate's, whatever the optimiser and the
+   norm oracle return and wherever the candidate lies *)
+Theorem C04_refine_constrained_untouched : forall lsq hyp dev g st vmin_o vmax_o adjust c r,
+  wf c -> wf_grid g ->
+  refine lsq hyp dev g st vmin_o vmax_o adjust c = ROk r ->
+  forall i, In i (constraints g) -> nth_error (d_pos r) i = nth_error (d_pos c) i.
+Proof. exact refine_constrained_untouched. Qed.
+Print Assumptions C04_refine_constrained_untouched.
+
+(* periodic coordinates end in [lo, hi): every periodic axis of a Cartesian grid, z of a periodic cylinder *)
+Theorem C04_refine_position_normalised : forall lsq hyp dev g st vmin_o vmax_o adjust c r,
+  wf c -> wf_grid g ->
+  refine lsq hyp dev g st vmin_o vmax_o adjust c = ROk r ->
+  (g_family g = FCart -> forall i a, nth_error (g_axes g) i = Some a -> aper a = true -> alo a < ahi a ->
+     exists x, nth_error (d_pos r) i = Some x /\ alo a <= x /\ x < ahi a) /\
+  (g_family g = FCyl -> forall a, nth_error (g_axes g) 1 = Some a -> aper a = true -> alo a < ahi a ->
+     exists z, nth_error (d_pos r) 2 = Some z /\ alo a <= z /\ z < ahi a).
+Proof. exact refine_position_normalised. Qed.
+Print Assumptions C04_refine_position_normalised.
+
+(* the start vector handed to the optimiser satisfies all its preconditions (shapes, lo < hi, lo <= x0 <= hi) for
+   every valid candidate and every intensity option -- with fitted intensities under the exact hypothesis
+   vmin < vmax on the effective levels (given, or min / max of the data) *)
+Theorem C04_refine_start_feasible : forall g st vmin_o vmax_o adjust c p,
+  wf c -> valid g c ->
+  prepare g st vmin_o vmax_o adjust c = inr p ->
+  (adjust = false \/ p_vmin p < p_vmax p) ->
+  lsq_precondition (p_x0 p) (p_lo p) (p_hi p) = None /\
+  within (p_lo p) (p_x0 p) (p_hi p) = true /\ strict (p_lo p) (p_hi p) = true.
+Proof. exact refine_start_feasible. Qed.
+Print Assumptions C04_refine_start_feasible.
+
+(* ... and the hypothesis is necessary: fitted intensities with vmin >= vmax are rejected (known finding F20) *)
+Theorem C04_refine_degenerate_range_rejected : forall lsq hyp dev g st vmin_o vmax_o c p,
+  wf c -> prepare g st vmin_o vmax_o true c = inr p -> ~ p_vmin p < p_vmax p ->
+  refine lsq hyp dev g st vmin_o vmax_o true c = RErr EBoundsNotStrict.
+Proof. exact refine_degenerate_range. Qed.
+Print Assumptions C04_refine_degenerate_range_rejected.
+
+(* no error value: matching dimension, defined levels, valid candidate *)
+Theorem C04_refine_ok : forall lsq hyp dev g st vmin_o vmax_o adjust c,
+  lsq_spec lsq -> wf c -> valid g c -> length (d_pos c) = g_dim g ->
+  (exists vmin vmax, levels vmin_o vmax_o st = Some (vmin, vmax) /\ (adjust = false \/ vmin < vmax)) ->
+  exists r, refine lsq hyp dev g st vmin_o vmax_o adjust c = ROk r.
+Proof. exact refine_ok. Qed.
+Print Assumptions C04_refine_ok.
+
+(* squared deviation of the returned droplet (with the final intensities) <= that of the candidate; the premise
+   `dev_normalisation_invariant` says that the rendered field does not change when the position is normalised *)
+Theorem C04_refine_cost_le : forall lsq hyp dev g st vmin_o vmax_o adjust c r p,
+  lsq_spec lsq -> wf c -> dev_normalisation_invariant hyp dev g ->
+  prepare g st vmin_o vmax_o adjust c = inr p ->
+  refine lsq hyp dev g st vmin_o vmax_o adjust c = ROk r ->
+  exists vminf vrngf,
+    sumsq (dev (flat_of r) vminf vrngf) <= sumsq (dev (p_flat p) (p_vmin p) (p_vrng p)) /\
+    (adjust = false -> vminf = p_vmin p /\ vrngf = p_vrng p).
+Proof. exact refine_cost_le. Qed.
+Print Assumptions C04_refine_cost_le.
+
+(* zero initial deviation => zero final deviation *)
+Theorem C04_refine_fixed_point : forall lsq hyp dev g st vmin_o vmax_o adjust c r p,
+  lsq_spec lsq -> wf c -> dev_normalisation_invariant hyp dev g ->
+  prepare g st vmin_o vmax_o adjust c = inr p ->
+  refine lsq hyp dev g st vmin_o vmax_o adjust c = ROk r ->
+  sumsq (dev (p_flat p) (p_vmin p) (p_vrng p)) == 0 ->
+  exists vminf vrngf, sumsq (dev (flat_of r) vminf vrngf) == 0.
+Proof. exact refine_fixed_point. Qed.
+Print Assumptions C04_refine_fixed_point.
+
+(* ... and a solver that returns a zero-cost start unchanged returns the candidate itself (promoted, default
+   width, position normalised) *)
+Theorem C04_refine_fixed_point_unchanged : forall lsq hyp dev g st vmin_o vmax_o adjust c p,
+  lsq_stationary lsq -> wf c -> valid g c ->
+  prepare g st vmin_o vmax_o adjust c = inr p ->
+  (adjust = false \/ p_vmin p < p_vmax p) ->
+  sumsq (dev (p_flat p) (p_vmin p) (p_vrng p)) == 0 ->
+  let q := promoted c in
+  refine lsq hyp dev g st vmin_o vmax_o adjust c =
+  ROk {| d_cls := d_cls q; d_pos := final_pos hyp g (d_pos q); d_rad := d_rad q;
+         d_width := Some (p_width p); d_amp := d_amp q |}.
+Proof. exact refine_fixed_point_unchanged. Qed.
+Print Assumptions C04_refine_fixed_point_unchanged.
+
+(* Cartesian grids: the final position is the normalised one and every (periodic) difference vector / squared
+   distance from it to any point is unchanged -- what discharges `dev_normalisation_invariant` for a deviation
+   that depends on the position through the grid's difference vectors only *)
+Theorem C04_cart_normalisation_invariant : forall hyp g pos q, g_family g = FCart ->
+  Forall (fun a => aper a = true -> alo a < ahi a) (g_axes g) ->
+  final_pos hyp g pos = normalize (g_axes g) pos /\
+  Qlist_eq (diff_vec (g_axes g) (final_pos hyp g pos) q) (diff_vec (g_axes g) pos q) /\
+  dist2 (g_axes g) (final_pos hyp g pos) q == dist2 (g_axes g) pos q.
+Proof. exact cart_final_pos_diff. Qed.
+Print Assumptions C04_cart_normalisation_invariant.
+
+(* the fit region: the candidate's binary image dilated n times, 2 w < n <= 2 w + 1 *)
+Theorem C04_fit_region_dilation : forall w, 0 <= w ->
+  (1 <= dilation_passed (dilation_iterations w))%Z /\
+  2 * w < inject_Z (dilation_passed (dilation_iterations w)) /\
+  inject_Z (dilation_passed (dilation_iterations w)) <= 2 * w + 1.
+Proof. exact fit_region_dilation. Qed.
+Print Assumptions C04_fit_region_dilation.
+
+(* non-vacuity: an optimiser satisfying both specifications; a spherical candidate across the periodic boundary of
+   a Cartesian grid (promoted, default width, wrapped into the box); an off-axis axisymmetric candidate on a periodic
+   cylinder with a moving "optimiser" (x, y untouched, z wrapped); the two error values of degenerate inputs *)
+Example C04_nonvacuous :
+  (lsq_spec lsq_identity /\ lsq_stationary lsq_identity) /\
+  res_is (refine lsq_identity (fun _ => 0) (fun _ _ _ => []) ex_cart (Some (0, 1)) None None true ex_sph)
+    {| d_cls := RDiffuse; d_pos := [1; 1]; d_rad := 1; d_width := Some 1; d_amp := [] |} = true /\
+  res_is (refine ex_lsq_cyl (fun _ => 1 # 2) (fun _ _ _ => []) ex_cyl (Some (0, 1)) (Some 0) (Some 1) true ex_axi)
+    {| d_cls := RP3DAxi; d_pos := [3 # 10; 4 # 10; 15 # 4]; d_rad := 5 # 4; d_width := Some (3 # 4);
+       d_amp := [1 # 20; -(1 # 5)] |} = true /\
+  refine lsq_identity (fun _ => 0) (fun _ _ _ => []) ex_cart (Some (1, 1)) None None true ex_sph = RErr EBoundsNotStrict /\
+  refine lsq_identity (fun _ => 0) (fun _ _ _ => []) ex_cart None None (Some 1) false ex_sph = RErr EEmptyRegion /\
+  wf ex_sph /\ wf ex_axi /\ valid ex_cart ex_sph /\ valid ex_cyl ex_axi /\ wf_grid ex_cart /\ wf_grid ex_cyl.
+Proof. exact (conj identity_lsq_spec ex_runs). Qed.
